@@ -128,6 +128,17 @@ def case(draw):
         rule = {'name': 'Spacing Rule', 'match': m, 'category': 'Bills & Utilities', 'subcategory': 'Padded', 'merchant': None, 'priority': 95, 'tags': [], 'lets': [], 'fields': []}
         rf = b['rf']
         b = dict(b, rf=dict(rf, rules=[rule] + rf['rules']))
+    # a rule decided by a SUPPLEMENTAL source (an order of exactly this amount exists), and a probe it decides
+    supp = b.get('supplemental') or {}
+    orders = [r for r in supp.get('orders', []) if any(str(v).strip() for v in r.values()) and r['amount'] > 0]
+    if orders and b['rules_kind'] == 'rules' and draw(st.booleans()):
+        amt = round(float(orders[0]['amount']), 2)
+        if abs(amt - orders[0]['amount']) < 1e-12:
+            rule = {'name': 'Order On File', 'match': ['anygen', ['cmp', ['attr', 'o', 'amount'], [['==', ['name', 'amount']]]], 'o', ['name', 'orders'], None], 'category': 'Shopping',
+                    'subcategory': 'Order Matched', 'merchant': None, 'priority': 97, 'tags': ['order'], 'lets': [], 'fields': []}
+            rf = b['rf']
+            b = dict(b, rf=dict(rf, rules=[rule] + rf['rules']))
+            probes = probes + [{'desc': 'ORDER LOOKUP ' + draw(st.sampled_from(UNIQ)), 'amount': amt}]
     return {'b': b, 'probes': probes}
 
 
